@@ -924,7 +924,11 @@ func (e *Env) evalMCall(x *Expr) Val {
 						return sv
 					}
 				}
-				return vc.applyUF(key, m.Type().(*types.Signature), args, 0)
+				r := vc.applyUF(key, m.Type().(*types.Signature), args, 0)
+				if !e.underQuant {
+					f.devirtualiseIn(it, x.Name, args, e.st, r)
+				}
+				return r
 			}
 		}
 		e.fail("no method %s on %s", x.Name, recv.gt)
